@@ -770,6 +770,29 @@ pub fn c16(tier: Tier) -> Vec<Scenario> {
             }
         }
     }
+    // page sizes at the INTEGER encoding boundaries, with and without search options whose size
+    // limit is smaller than the page: the control carries exactly the requested size
+    for p in [20i32, 127, 128, 129, 255, 256, 32767, 32768, 65536, i32::MAX] {
+        for (ci, chain) in [Chain::Paged(p), Chain::EntriesPaged(p), Chain::PagedEntries(p)].into_iter().enumerate() {
+            for opts in [false, true] {
+                if tier == Tier::Quick && (ci as i64 + p as i64 + opts as i64) % 2 == 0 && p != 128 && p != 20 {
+                    continue;
+                }
+                let mut s = Scenario::new(&format!("C16/page-size-{}/{:?}/opts={}", p, chain, opts));
+                s.clients = vec![client(vec![
+                    Call::Start { marker: "pg".into(), chain: chain.clone(), timeout: None, ctrl: false, opts, own_paging: false },
+                    Call::Next,
+                    Call::Next,
+                    Call::Next,
+                    Call::Finish,
+                ])];
+                s.plans.insert("pg".into(), Plan { total: 2, ..Default::default() });
+                s.select_starts = vec![1];
+                s.oracles = Oracles { paged: true, stream: true, route: true, leak: true, ids: true, ..Default::default() };
+                out.push(s);
+            }
+        }
+    }
     // the pager outermost, EntriesOnly inside; references on every page
     for n in 0..=tier.pick(3usize, 5) {
         for p in 1..=2i32 {
